@@ -1,0 +1,102 @@
+/**
+ * @file verif_hooks.h
+ * @brief Instrumentation points for external verification harnesses.
+ * @details Everything in this file is inert unless YAKUSHIMA_VERIF is defined.
+ * With the guard on, the harness that includes the yakushima headers has to
+ * define the extern "C" symbols below. Each macro is placed *before* the shared
+ * memory access it announces.
+ */
+
+#pragma once
+
+#ifdef YAKUSHIMA_VERIF
+
+extern "C" {
+/// non-zero while a harness wants to receive hook calls.
+extern int yk_verif_on; // NOLINT
+void yk_verif_point(int kind, int cls, const void* addr, int size,
+                    const char* file, int line);
+void yk_verif_wait(int type, const void* addr, const char* file, int line);
+int yk_verif_yield(const char* file, int line);
+void yk_verif_event(int ev, const void* obj, unsigned long long a, // NOLINT
+                    unsigned long long b);                         // NOLINT
+void yk_verif_thread(int what, int role);
+}
+
+// kind
+#define YK_LOAD 0
+#define YK_STORE 1
+#define YK_RMW 2
+#define YK_PLAINW 3
+// class
+#define YK_C_TREE 0
+#define YK_C_SESSION 1
+#define YK_C_EPOCH 2
+#define YK_C_GCQ 3
+#define YK_C_STOP 4
+// wait type
+#define YK_W_SPIN 0
+#define YK_W_RETRY 1
+// event
+#define YK_EV_RETIRE_NODE 0
+#define YK_EV_RETIRE_VALUE 1
+#define YK_EV_RECLAIM_NODE 2
+#define YK_EV_RECLAIM_VALUE 3
+#define YK_EV_ENTER 4
+#define YK_EV_LEAVE 5
+// thread hook
+#define YK_T_BEGIN 0
+#define YK_T_END 1
+#define YK_T_SPAWNED 2
+#define YK_T_JOIN 3
+// thread role
+#define YK_R_EPOCH 0
+#define YK_R_GC 1
+
+#define YK_VP(kind, cls, ptr)                                                  \
+    do {                                                                       \
+        if (yk_verif_on != 0) {                                                \
+            yk_verif_point((kind), (cls),                                      \
+                           static_cast<const void*>(ptr),                      \
+                           static_cast<int>(sizeof(*(ptr))), __FILE__,         \
+                           __LINE__);                                          \
+        }                                                                      \
+    } while (false)
+#define YK_VPA(kind, cls, addr, size)                                          \
+    do {                                                                       \
+        if (yk_verif_on != 0) {                                                \
+            yk_verif_point((kind), (cls), (addr), (size), __FILE__, __LINE__); \
+        }                                                                      \
+    } while (false)
+#define YK_WAIT(type, ptr)                                                     \
+    do {                                                                       \
+        if (yk_verif_on != 0) {                                                \
+            yk_verif_wait((type), static_cast<const void*>(ptr), __FILE__,     \
+                          __LINE__);                                           \
+        }                                                                      \
+    } while (false)
+/// evaluates to true if the harness wants the real sleep to be skipped.
+#define YK_YIELD() (yk_verif_on != 0 && yk_verif_yield(__FILE__, __LINE__) != 0)
+#define YK_EVENT(ev, obj, a, b)                                                \
+    do {                                                                       \
+        if (yk_verif_on != 0) {                                                \
+            yk_verif_event((ev), static_cast<const void*>(obj),                \
+                           static_cast<unsigned long long>(a),                 \
+                           static_cast<unsigned long long>(b));                \
+        }                                                                      \
+    } while (false)
+#define YK_THREAD(what, role)                                                  \
+    do {                                                                       \
+        if (yk_verif_on != 0) { yk_verif_thread((what), (role)); }             \
+    } while (false)
+
+#else
+
+#define YK_VP(kind, cls, ptr) ((void) 0)
+#define YK_VPA(kind, cls, addr, size) ((void) 0)
+#define YK_WAIT(type, ptr) ((void) 0)
+#define YK_YIELD() (false)
+#define YK_EVENT(ev, obj, a, b) ((void) 0)
+#define YK_THREAD(what, role) ((void) 0)
+
+#endif
